@@ -177,7 +177,7 @@ def sim_pred(spec, K, rhs, lhs, out, twice, tol, nq=15):
     """op.sqrt_inv_matmul(rhs[, lhs]) and, without lhs, applying it twice"""
     fails = []
     n = spec["n"]
-    batch = torch.broadcast_shapes(K.shape[:-2], rhs.shape[:-2])
+    batch = torch.broadcast_shapes(K.shape[:-2], rhs.shape[:-2], *([lhs.shape[:-2]] if lhs is not None else []))
     Kb = K.expand(*batch, n, n)
     rb = rhs.expand(*batch, n, rhs.shape[-1])
     w, Ksq, Kisq, Kinv = spectral(Kb)
@@ -199,8 +199,15 @@ def sim_pred(spec, K, rhs, lhs, out, twice, tol, nq=15):
     else:
         res, iq = out
         lb = lhs.expand(*batch, lhs.shape[-2], n)
-        if list(res.shape) != list(batch) + [lhs.shape[-2], rhs.shape[-1]] or list(iq.shape) != list(batch) + [lhs.shape[-2]]:
-            return [("shape", "sqrt_inv_matmul(rhs, lhs) output shapes %s %s" % (list(res.shape), list(iq.shape)))]
+        # diag(L K^-1 L^T) is a function of K and L only: when rhs carries batch dimensions that neither K nor L have (not
+        # supported by the generic path, whose signature gives rhs and lhs one common batch shape) both the full batch
+        # shape and broadcast(K.batch, L.batch) are legitimate for the second output
+        iq_shapes = [list(batch) + [lhs.shape[-2]],
+                     list(torch.broadcast_shapes(K.shape[:-2], lhs.shape[:-2])) + [lhs.shape[-2]]]
+        if list(res.shape) != list(batch) + [lhs.shape[-2], rhs.shape[-1]] or list(iq.shape) not in iq_shapes:
+            return [("shape", "sqrt_inv_matmul(rhs, lhs) output shapes %s %s, expected %s %s"
+                     % (list(res.shape), list(iq.shape), list(batch) + [lhs.shape[-2], rhs.shape[-1]], iq_shapes[0]))]
+        iq = iq.expand(*batch, lhs.shape[-2])
         if not ciq_in_scope(spec):
             return fails
         e = relerr(res, lb @ Kisq @ rb)
@@ -209,6 +216,25 @@ def sim_pred(spec, K, rhs, lhs, out, twice, tol, nq=15):
         e = relerr(iq, torch.diagonal(lb @ Kinv @ lb.mT, dim1=-2, dim2=-1))
         if not e <= b_root:
             fails.append(("inv-quad", "sqrt_inv_matmul(rhs, lhs)[1] differs from diag(L K^-1 L^T) by %.3g (rel.)" % e))
+    return fails
+
+
+def generic_pred(out, gen, has_lhs, tol, spec, nq=15):
+    """a class-specific sqrt_inv_matmul override against the generic base-class path (contour quadrature on a Dense copy of
+    the same matrix, same arguments): same shapes, values equal to quadrature accuracy"""
+    b_root, _, _ = ciq_bounds(spec, tol, nq)
+    pairs = [("sqrt_inv_matmul result", out[0] if has_lhs else out, gen[0] if has_lhs else gen)]
+    if has_lhs:
+        pairs.append(("inv_quad output", out[1], gen[1]))
+    fails = []
+    for name, a, b in pairs:
+        if list(a.shape) != list(b.shape):
+            fails.append(("generic-shape", "%s has shape %s but the generic path on a Dense copy gives %s"
+                          % (name, list(a.shape), list(b.shape))))
+        else:
+            e = relerr(a, b)
+            if not e <= 3 * b_root:
+                fails.append(("generic-values", "%s differs from the generic path on a Dense copy by %.3g (rel.)" % (name, e)))
     return fails
 
 
